@@ -249,16 +249,19 @@ def evalCore (ctx : Ctx) (vS lenS tailS piecesS : String) : Option Result := do
   -- `Z<n>` = a piece of n zero bytes (n ≥ 2^32).  The model cannot hold such a list; by
   -- `Model.updateFull_eq` only the first `maxLen - len` bytes of a piece matter once the tail is
   -- full, so near `MAX_LEN` the piece is represented by its first 8192 bytes.
+  -- `Z<n>` = a piece of n zero bytes (n ≥ 2^32): evaluated by the closed form `Model.updateZeros`,
+  -- which `Model.updateZeros_eq` proves equal to `Model.update` on `List.replicate n 0`.
   let hasZ := (piecesS.splitOn ",").any (fun p => p.startsWith "Z")
-  if hasZ && !(len0 + 4096 ≥ Model.maxLen && tail0.length = 4) then none else
-  let pieces := (if piecesS == "-" then [] else piecesS.splitOn ",").map (fun p =>
-    if p.startsWith "Z" then List.replicate 8192 (0 : UInt8) else unhex p)
+  if tail0.length > 4 then none else
+  let pieceToks := (if piecesS == "-" then [] else piecesS.splitOn ",")
+  let pieces := pieceToks.map (fun p => if p.startsWith "Z" then [] else unhex p)
   let f : Unit → List UInt8 → Unit := fun _ _ => ()
   let obs (s : Model.St Unit) : String :=
     toString s.len ++ ":" ++ hexStr s.tail ++ ":" ++ lenStr (Model.processedLen s)
   let s0 : Model.St Unit := { tail := tail0, len := len0, acc := () }
-  let r := pieces.foldl (fun (acc : Model.St Unit × List String) p =>
-    let s' := Model.update f acc.1 p
+  let r := pieceToks.foldl (fun (acc : Model.St Unit × List String) p =>
+    let s' := if p.startsWith "Z" then Model.updateZeros acc.1 (((p.drop 1).toString.toNat?).getD 0)
+              else Model.update f acc.1 (unhex p)
     (s', obs s' :: acc.2)) (s0, [])
   let plen := (Model.processedLen r.1).getD (2 ^ 32 - 1)
   let tooLarge (P : Model.GenParams) : String :=
@@ -266,7 +269,7 @@ def evalCore (ctx : Ctx) (vS lenS tailS piecesS : String) : Option Result := do
   let model := joinWith "," r.2.reverse ++ " toolarge=" ++ tooLarge Gen.params
   -- closed form (`ideal`) when starting from a fresh generator
   let spec :=
-    if len0 = 0 ∧ tail0.isEmpty then
+    if len0 = 0 ∧ tail0.isEmpty ∧ !hasZ then
       let r2 := pieces.foldl (fun (acc : List UInt8 × List String) p =>
         let e := acc.1 ++ p
         (e, obs (Model.ideal f () e) :: acc.2)) ([], [])
